@@ -8,6 +8,7 @@ import RevalModel.Lemmas.Calendar
 import RevalModel.Lemmas.DecExact
 import RevalModel.Lemmas.Strings
 import RevalModel.Lemmas.Equality
+import RevalModel.Lemmas.IntDiv
 
 namespace Reval.C02
 
@@ -258,6 +259,22 @@ theorem int_of_decimal_truncates (o : Oracle) (d : Dec) : ∃ k r : Int,
       rw [Int.neg_tmod] at this
       omega
 
+/-- the unit counts of a span — `week(d)`, `day(d)`, `hour(d)`, `minute(d)`, `second(d)` — are the number of WHOLE units in
+    it, truncated toward zero (a span of −90 minutes has −1 hours): one division of the nanosecond count by the unit -/
+theorem duration_unit_counts_truncate (o : Oracle) (ns : Int) :
+    applyUn o .week (.duration ns) = .ok (.int (Int.tdiv ns (Time.nsPerSec * 604800))) ∧
+    applyUn o .day (.duration ns) = .ok (.int (Int.tdiv ns (Time.nsPerSec * 86400))) ∧
+    applyUn o .hour (.duration ns) = .ok (.int (Int.tdiv ns (Time.nsPerSec * 3600))) ∧
+    applyUn o .minute (.duration ns) = .ok (.int (Int.tdiv ns (Time.nsPerSec * 60))) ∧
+    applyUn o .second (.duration ns) = .ok (.int (Int.tdiv ns Time.nsPerSec)) := by
+  have hs : (0 : Int) < Time.nsPerSec := by decide
+  refine ⟨?_, ?_, ?_, ?_, ?_⟩
+  · simp only [applyUn, Impl.week, Time.numUnits, Time.numSeconds]; rw [Int.tdiv_tdiv_pos _ _ _ hs (by decide)]
+  · simp only [applyUn, Impl.day, Time.numUnits, Time.numSeconds]; rw [Int.tdiv_tdiv_pos _ _ _ hs (by decide)]
+  · simp only [applyUn, Impl.hour, Time.numUnits, Time.numSeconds]; rw [Int.tdiv_tdiv_pos _ _ _ hs (by decide)]
+  · simp only [applyUn, Impl.minute, Time.numUnits, Time.numSeconds]; rw [Int.tdiv_tdiv_pos _ _ _ hs (by decide)]
+  · simp [applyUn, Impl.second, Time.numUnits, Time.numSeconds]
+
 /-! non-vacuity -/
 example : applyBin Oracle.empty .sub (.int 7) (.int 9) = .ok (.int (-2)) := by decide
 example : applyBin Oracle.empty .rem (.int (-7)) (.int 2) = .ok (.int (-1)) := by decide
@@ -275,5 +292,6 @@ example : Value.peq (.vec [.dec ⟨false, 10, 1⟩]) (.vec [.dec ⟨false, 100, 
 example : applyUn Oracle.empty .toInt (.dec ⟨true, 199, 2⟩) = .ok (.int (-1)) := by decide   -- int(d-1.99) = -1
 example : applyUn Oracle.empty .toInt (.dec ⟨false, 25, 1⟩) = .ok (.int 2) := by decide      -- int(d2.5) = 2
 
+example : applyUn Oracle.empty .hour (.duration (-5400 * Time.nsPerSec)) = .ok (.int (-1)) := by decide   -- −90 minutes: −1 hours
 
 end Reval.C02
